@@ -55,6 +55,7 @@ def run(ctx):
     ctx.rule("C28.1", "layout constants and byte ranges duplicated in vacuum.rs agree with the owning module")
     ctx.rule("C28.2", "vacuum marks every page list a segment owns and selects WAL roots like recovery does")
     ctx.rule("C28.3", "copy is synced before the original is replaced; rename order target->backup then tmp->target")
+    ctx.rule("C28.4", "reachability marking consumes every root kind: all WalRoots fields, the node table, the index catalog and its trees")
 
     dups = sorted(k for k in F.consts if k.startswith(V))
     ctx.floor("C28.1", "constants declared in vacuum.rs", len(dups), 3)
@@ -154,3 +155,33 @@ def run(ctx):
             ctx.instance("C28.3", "rename order: #0 (target->backup) dominates #1 (tmp->target)")
             ctx.oblige(ok1 is not None and b.dominates(ok1, renames[1].bb), "C28.3", "vacuum_in_place:rename-order",
                        "tmp->target is not ordered after a successful target->backup rename", renames[1].loc())
+
+    # ---- clause 4
+    mb = ctx.body(V + "mark_reachable_pages")
+    wr = ctx.adt("nervusdb_storage::vacuum::WalRoots")
+    fields = [f[0] for f in wr["variants"][0]["fields"] if f[0] != "manifest_epoch"]
+    read = set()
+    for blk in mb.blocks:
+        for st in blk["s"]:
+            if st[0] == "a":
+                from ..facts import rvalue_operands
+                pls = []
+                rv = st[2]
+                if rv[0] in ("ref", "rawptr"):
+                    pls.append(rv[2] if rv[0] == "ref" else rv[1])
+                else:
+                    pls += [o[1] for o in rvalue_operands(rv) if o[0] in ("c", "m")]
+                for pl in pls:
+                    for pr in pl[1]:
+                        if isinstance(pr, list) and pr[0] == "f" and pr[3] == "nervusdb_storage::vacuum::WalRoots":
+                            read.add(pr[2])
+    for f in fields:
+        ctx.instance("C28.4", "WalRoots.%s consumed by marking=%s" % (f, f in read))
+        ctx.oblige(f in read, "C28.4", "mark_reachable_pages:ignores(WalRoots.%s)" % f,
+                   "vacuum never marks the pages reachable from WalRoots.%s: they are dropped by the copy and the database loses that structure" % f, mb.file)
+    need = {"i2e_start_page": "node table pages", "index_catalog_root": "index catalog page", "open_existing": "index trees",
+            "mark_reachable_pages": "B-tree pages", "mark_blob_chain": "blob chains (properties, statistics, vectors)", "mark_csr_segment_pages": "segment pages"}
+    called = {c.name.split("::")[-1] for c in mb.calls()}
+    for k, what in need.items():
+        ctx.instance("C28.4", "marking calls %s (%s)=%s" % (k, what, k in called))
+        ctx.oblige(k in called, "C28.4", "mark_reachable_pages:no-call(%s)" % k, "vacuum no longer marks the %s" % what, mb.file)
